@@ -108,3 +108,71 @@ func ZZVerif_C16_GERIndex() {
 	}
 	zzverif.Assert("last processed block", err == nil && lp == want)
 }
+
+// ZZVerif_C07_GERFault: a committed block with an injected root, then a block (insertion or removal) during which the insert
+// into table T fails (or, for a removal, the delete). Nothing of the failed block is recorded: the last processed block and
+// every index query answer as before; the retried block then behaves as in a fault-free run.
+func ZZVerif_C07_GERFault() {
+	ctx := context.Background()
+	t := zzverif.Param("T")      // 0: block row insert, 1: root row insert, 2: root row delete (removal)
+	kind := zzverif.Param("KIND") // 1 insertion (GERInfo form), 2 insertion (GEREvent form), 3 removal of the first root
+	path := zzverif.TempDB("ger")
+	p := zzNewProcessor(path)
+	g1, g2 := ethCommon.Hash(zzverif.Hash("ger")), ethCommon.Hash(zzverif.Hash("ger"))
+	zzverif.Assume(g1 != g2)
+	i1, i2 := zzverif.U32("idx"), zzverif.U32("idx")
+	zzverif.Assume(p.ProcessBlock(ctx, sync.Block{Num: 1, Hash: zzverif.Hash("bh"), Events: []interface{}{&Event{GERInfo: &GlobalExitRootInfo{GlobalExitRoot: g1, L1InfoTreeIndex: i1}}}}) == nil)
+	blk := sync.Block{Num: 2, Hash: zzverif.Hash("bh")}
+	switch kind {
+	case 1:
+		blk.Events = []interface{}{&Event{GERInfo: &GlobalExitRootInfo{GlobalExitRoot: g2, L1InfoTreeIndex: i2}}}
+	case 2:
+		blk.Events = []interface{}{&Event{GEREvent: &GEREvent{BlockNum: 2, GlobalExitRoot: g2, L1InfoTreeIndex: i2}}}
+	default:
+		blk.Events = []interface{}{&Event{GEREvent: &GEREvent{BlockNum: 2, GlobalExitRoot: g1, IsRemove: true}}}
+	}
+	switch t {
+	case 0:
+		zzverif.FailInsert(p.database, "block", 0)
+	case 1:
+		zzverif.FailInsert(p.database, "imported_global_exit_root", 0)
+	default:
+		zzverif.FailDelete(p.database, "imported_global_exit_root")
+	}
+	err := p.ProcessBlock(ctx, blk)
+	zzverif.ClearFaults(p.database, "block", "imported_global_exit_root")
+	zzverif.Assert("the fault is reported", err != nil)
+	if zzverif.Bool("restartAfterFault") {
+		p = zzNewProcessor(path)
+	}
+	lp, e := p.GetLastProcessedBlock(ctx)
+	zzverif.Assert("failed block not recorded", e == nil && lp == 1)
+	got, e := p.GetFirstGERAfterL1InfoTreeIndex(ctx, 0)
+	zzverif.Assert("the first root is still there and nothing of the failed block is", e == nil && got.GlobalExitRoot == g1 && got.L1InfoTreeIndex == i1)
+	zzverif.Assert("retry succeeds", p.ProcessBlock(ctx, blk) == nil)
+	lp, e = p.GetLastProcessedBlock(ctx)
+	zzverif.Assert("retried block recorded", e == nil && lp == 2)
+	q := zzverif.U32("X")
+	res, e := p.GetFirstGERAfterL1InfoTreeIndex(ctx, q)
+	// reference after the retry
+	type row struct {
+		g ethCommon.Hash
+		i uint32
+	}
+	var live []row
+	if kind != 3 {
+		live = []row{{g1, i1}, {g2, i2}}
+	}
+	found, best := false, row{}
+	for _, r := range live {
+		if r.i >= q && (!found || r.i < best.i) {
+			found, best = true, r
+		}
+	}
+	if !found {
+		zzverif.Assert("after the retry: not found iff no live root at or after X", errors.Is(e, db.ErrNotFound))
+	} else {
+		zzverif.Assert("after the retry: the least live index at or after X", e == nil && res.L1InfoTreeIndex == best.i && (res.GlobalExitRoot == best.g || i1 == i2))
+	}
+	zzverif.Reach("end")
+}
